@@ -22,8 +22,9 @@ enum Behaviour { B_WHOLE,
                  B_PIECES,
                  B_CHUNKED,
                  B_CLOSE_AFTER,
-                 B_NEVER };
-static const char* kBehNames[] = { "whole", "two-pieces", "chunked", "whole-then-close", "never" };
+                 B_NEVER,  // never answered; the connection's later requests wait behind it (responses go in order)
+                 B_DROP }; // never answered, the server goes on with the connection's later requests
+static const char* kBehNames[] = { "whole", "two-pieces", "chunked", "whole-then-close", "never", "dropped" };
 
 struct Scenario
 {
@@ -64,6 +65,7 @@ struct ScriptedServer
     std::vector<SrvConn> conns;
     int openNow = 0, peakOpen = 0;
     std::set<int> answered; // tags whose response was sent completely
+    std::set<int> dropTags, dropped; // requests the server reads and forgets (scenario / seen so far)
     void start()
     {
         lfd = ::socket(AF_INET, SOCK_STREAM | SOCK_NONBLOCK | SOCK_CLOEXEC, 0);
@@ -131,7 +133,10 @@ struct ScriptedServer
                 break;
             c.in.erase(0, m.consumed);
             int tag = atoi(m.target.c_str() + 3); // "/r/<i>"
-            c.pendingTags.push_back(tag);
+            if (dropTags.count(tag))
+                dropped.insert(tag);
+            else
+                c.pendingTags.push_back(tag);
         }
     }
     void close_conn(size_t ci)
@@ -213,6 +218,9 @@ static Exec run_one(const Scenario& sc, const std::vector<uint8_t>& prefix, vr::
     sim::configure(true, true, true);
     ng_set_active(1);
     ScriptedServer srv;
+    for (int i = 0; i < sc.n; ++i)
+        if (sc.beh[i] == B_DROP)
+            srv.dropTags.insert(i);
     srv.start();
     std::vector<ReqObs> obs(sc.n);
     std::string trace;
@@ -270,7 +278,9 @@ static Exec run_one(const Scenario& sc, const std::vector<uint8_t>& prefix, vr::
             // (fine-grained scenarios) issuing threads and the next issue come before the server's answers in the
             // canonical order: a request is issued while its predecessor is in flight, and ONE deviation (the server
             // answers now) slips a completion between two critical sections of that issue
-            for (size_t k = 0; k < issuerActor.size(); ++k)
+            // the newest issuing thread first: ONE deviation ("issue the next request now") preempts an issuing thread
+            // between two of its critical sections by a whole other issue (two first requests to a host racing)
+            for (size_t k = issuerActor.size(); k-- > 0;)
                 if (sim::actor_ready(issuerActor[k]))
                     en.push_back(600 + (int)k);
             if (sc.fine && issued < sc.n)
@@ -414,10 +424,10 @@ static Exec run_one(const Scenario& sc, const std::vector<uint8_t>& prefix, vr::
             }
             else if (srv.answered.count(i) && !o.fulfilled && !(sc.timeoutMs[i] && o.rejected))
                 ctx.violation(std::string("c15:answered-request-not-fulfilled:") + (o.rejected ? "rejected" : "pending"), detail(w));
-            else if (sc.beh[i] == B_NEVER && sc.timeoutMs[i] && ticks * 500 > sc.timeoutMs[i] && !o.rejected && issued > i)
+            else if ((sc.beh[i] == B_NEVER || sc.beh[i] == B_DROP) && sc.timeoutMs[i] && ticks * 500 > sc.timeoutMs[i] && !o.rejected && issued > i)
             {
                 // only a request that actually reached an established connection has a running time-out
-                bool sent = false;
+                bool sent = srv.dropped.count(i) != 0;
                 for (auto& c : srv.conns)
                     for (int t : c.pendingTags)
                         sent |= t == i;
@@ -611,6 +621,16 @@ int main(int argc, char** argv)
                         u.timeoutMs[i] = 1000;
                     gScenarios.push_back(u);
                 }
+                // the unanswered request is forgotten by the server, which serves the connection's next requests
+                if (n >= 2)
+                    for (int all = 0; all < 2; ++all)
+                    {
+                        Scenario u = s;
+                        u.beh[0]   = B_DROP;
+                        for (int i = 1; i < n && all; ++i)
+                            u.timeoutMs[i] = 1000;
+                        gScenarios.push_back(u);
+                    }
                 // a slow answer that arrives after the time-out has fired
                 if (n >= 2)
                 {
